@@ -2,6 +2,8 @@ package main
 
 import (
 	"fmt"
+	"sync"
+	"sync/atomic"
 
 	"github.com/prometheus/client_golang/prometheus"
 	"github.com/prometheus/client_golang/prometheus/vsched"
@@ -59,6 +61,86 @@ func labelsOf(names, t []string) prometheus.Labels {
 	return l
 }
 
+// newStampedVec: a MetricVec whose children carry their creation index (newMetric runs under the write lock).
+func newStampedVec(names []string, hm int) *prometheus.MetricVec {
+	next := 0
+	desc := prometheus.NewDesc("m", "h", names, nil)
+	vec := prometheus.NewMetricVec(desc, func(lvs ...string) prometheus.Metric {
+		m := &idMetric{desc, next}
+		next++
+		return m
+	})
+	plantHash(vec, hm)
+	return vec
+}
+
+func genSchedProgs(r *emit.Rng, names, vals []string, pool [][]string, nthreads, maxCalls int) [][]schedReq {
+	progs := make([][]schedReq, nthreads)
+	for ti := range progs {
+		n := 1 + r.Intn(maxCalls)
+		for k := 0; k < n; k++ {
+			q := schedReq{form: r.Intn(2), t: pool[r.Intn(len(pool))]}
+			switch x := r.Intn(100); {
+			case x < 55:
+				q.kind = 0
+			case x < 85:
+				q.kind = 1
+			case x < 95:
+				q.kind = 2
+				q.ls = prometheus.Labels{}
+				if r.Chance(2, 3) {
+					j := r.Intn(len(names))
+					q.ls[names[j]] = vals[r.Intn(len(vals))]
+				}
+			default:
+				q.kind = 3
+			}
+			progs[ti] = append(progs[ti], q)
+		}
+	}
+	return progs
+}
+
+// doReq performs one request on the vector and renders its result.
+func doReq(vec *prometheus.MetricVec, names []string, q schedReq) string {
+	var out string
+	switch q.kind {
+	case 0:
+		var m prometheus.Metric
+		var err error
+		if q.form == 0 {
+			b := scratchLVs(q.t)
+			m, err = vec.GetMetricWithLabelValues(b...)
+			scribbleLVs(b)
+		} else {
+			l := labelsOf(names, q.t)
+			m, err = vec.GetMetricWith(l)
+			scribbleLabels(l)
+		}
+		if err != nil {
+			out = emit.C(1, emit.I(classify(err.Error())), emit.B(false))
+		} else {
+			out = emit.C(0, emit.I(m.(*idMetric).id))
+		}
+	case 1:
+		if q.form == 0 {
+			b := scratchLVs(q.t)
+			out = emit.C(2, emit.B(vec.DeleteLabelValues(b...)))
+			scribbleLVs(b)
+		} else {
+			l := labelsOf(names, q.t)
+			out = emit.C(2, emit.B(vec.Delete(l)))
+			scribbleLabels(l)
+		}
+	case 2:
+		out = emit.C(3, emit.I(vec.DeletePartialMatch(q.ls)))
+	default:
+		vec.Reset()
+		out = emit.C(4)
+	}
+	return out
+}
+
 func runSched(c *cli.Ctx, r *emit.Rng) error {
 	w := emit.NewWriter(c.Out, "C07", "sched")
 	var direct []map[string]interface{}
@@ -78,81 +160,21 @@ func runSched(c *cli.Ctx, r *emit.Rng) error {
 			pool[i] = t
 		}
 		nthreads := 2 + r.Intn(2)
-		progs := make([][]schedReq, nthreads)
-		for ti := range progs {
-			n := 1 + r.Intn(3)
-			for k := 0; k < n; k++ {
-				q := schedReq{form: r.Intn(2), t: pool[r.Intn(npool)]}
-				switch x := r.Intn(100); {
-				case x < 55:
-					q.kind = 0
-				case x < 85:
-					q.kind = 1
-				case x < 95:
-					q.kind = 2
-					q.ls = prometheus.Labels{}
-					if r.Chance(2, 3) {
-						j := r.Intn(len(names))
-						q.ls[names[j]] = vals[r.Intn(len(vals))]
-					}
-				default:
-					q.kind = 3
-				}
-				progs[ti] = append(progs[ti], q)
-			}
-		}
+		progs := genSchedProgs(r, names, vals, pool, nthreads, 3)
 		programs++
-		var res [][]string
+		var res, times [][]string
 		mk := func() []func() {
-			next := 0
-			desc := prometheus.NewDesc("m", "h", names, nil)
-			vec := prometheus.NewMetricVec(desc, func(lvs ...string) prometheus.Metric {
-				m := &idMetric{desc, next}
-				next++
-				return m
-			})
-			plantHash(vec, hm)
+			vec := newStampedVec(names, hm)
 			res = make([][]string, nthreads)
+			times = make([][]string, nthreads)
 			bodies := make([]func(), nthreads)
 			for ti := range progs {
 				ti := ti
 				bodies[ti] = func() {
 					for _, q := range progs[ti] {
-						var out string
-						switch q.kind {
-						case 0:
-							var m prometheus.Metric
-							var err error
-							if q.form == 0 {
-								b := scratchLVs(q.t)
-								m, err = vec.GetMetricWithLabelValues(b...)
-								scribbleLVs(b)
-							} else {
-								l := labelsOf(names, q.t)
-								m, err = vec.GetMetricWith(l)
-								scribbleLabels(l)
-							}
-							if err != nil {
-								out = emit.C(1, emit.I(classify(err.Error())), emit.B(false))
-							} else {
-								out = emit.C(0, emit.I(m.(*idMetric).id))
-							}
-						case 1:
-							if q.form == 0 {
-								b := scratchLVs(q.t)
-								out = emit.C(2, emit.B(vec.DeleteLabelValues(b...)))
-								scribbleLVs(b)
-							} else {
-								l := labelsOf(names, q.t)
-								out = emit.C(2, emit.B(vec.Delete(l)))
-								scribbleLabels(l)
-							}
-						case 2:
-							out = emit.C(3, emit.I(vec.DeletePartialMatch(q.ls)))
-						default:
-							vec.Reset()
-							out = emit.C(4)
-						}
+						inv := vsched.Now()
+						out := doReq(vec, names, q)
+						times[ti] = append(times[ti], emit.Tup(emit.Z(inv), emit.Z(vsched.Now())))
 						res[ti] = append(res[ti], out)
 					}
 				}
@@ -168,6 +190,7 @@ func runSched(c *cli.Ctx, r *emit.Rng) error {
 			}
 			ps := make([]string, nthreads)
 			rs := make([]string, nthreads)
+			tms := make([]string, nthreads)
 			ncalls := 0
 			for ti := range progs {
 				it := make([]string, len(progs[ti]))
@@ -176,6 +199,7 @@ func runSched(c *cli.Ctx, r *emit.Rng) error {
 				}
 				ps[ti] = emit.L(it)
 				rs[ti] = emit.L(res[ti])
+				tms[ti] = emit.L(times[ti])
 				ncalls += len(progs[ti])
 			}
 			ns := make([]string, len(names))
@@ -187,7 +211,7 @@ func runSched(c *cli.Ctx, r *emit.Rng) error {
 				direct = append(direct, map[string]interface{}{"index": w.Len(),
 					"what": fmt.Sprintf("scheduler flags %d (1 deadlock, 2 step limit, 4 panic) panics=%v", fl, vr.Panics)})
 			}
-			w.Add(emit.C(3, emit.I(hm), emit.L(ns), emit.L(ps), emit.L(sched), emit.L(rs), emit.I(fl)),
+			w.Add(emit.C(3, emit.I(hm), emit.L(ns), emit.L(ps), emit.L(sched), emit.L(rs), emit.I(fl), emit.L(tms)),
 				ncalls >= 3 && len(sched) > ncalls,
 				fmt.Sprintf("threads:%d", nthreads), fmt.Sprintf("hmode:%d", hm), fmt.Sprintf("sections:%d", len(sched)))
 		}
@@ -203,6 +227,88 @@ func runSched(c *cli.Ctx, r *emit.Rng) error {
 	}
 	w.Extra["programs"] = programs
 	w.Extra["programs_explored_exhaustively"] = exhaustive
+	if len(direct) > 0 {
+		w.Extra["direct_failures"] = direct
+	}
+	return w.Flush()
+}
+
+// Stream "stresslin": free-running races of real goroutines on small programs (at most 9 calls, so that
+// the linearization search stays cheap). An atomic logical clock is ticked before every invocation and
+// after every response; the runner checks REAL-TIME linearizability of the resulting history:
+//
+//	(4 names progs results times)
+func runStressLin(c *cli.Ctx, r *emit.Rng) error {
+	w := emit.NewWriter(c.Out, "C07", "stresslin")
+	var direct []map[string]interface{}
+	for it := 0; it < 400*c.Scale; it++ {
+		hm := r.Intn(3)
+		names := []string{"a", "b"}[:1+r.Intn(2)]
+		vals := []string{"x", "y", ""}
+		npool := 1 + r.Intn(2)
+		pool := make([][]string, npool)
+		for i := range pool {
+			t := make([]string, len(names))
+			for j := range t {
+				t[j] = vals[r.Intn(len(vals))]
+			}
+			pool[i] = t
+		}
+		nthreads := 3
+		maxCalls := 3
+		if r.Chance(1, 3) {
+			nthreads, maxCalls = 4, 2
+		}
+		progs := genSchedProgs(r, names, vals, pool, nthreads, maxCalls)
+		vec := newStampedVec(names, hm)
+		var clock int64
+		res := make([][]string, nthreads)
+		times := make([][]string, nthreads)
+		panics := make([]interface{}, nthreads)
+		var wg sync.WaitGroup
+		start := make(chan struct{})
+		for ti := range progs {
+			ti := ti
+			wg.Add(1)
+			go func() {
+				defer wg.Done()
+				defer func() { panics[ti] = recover() }()
+				<-start
+				for _, q := range progs[ti] {
+					inv := atomic.AddInt64(&clock, 1)
+					out := doReq(vec, names, q)
+					e := atomic.AddInt64(&clock, 1)
+					res[ti] = append(res[ti], out)
+					times[ti] = append(times[ti], emit.Tup(emit.Z(inv), emit.Z(e)))
+				}
+			}()
+		}
+		close(start)
+		wg.Wait()
+		for ti, p := range panics {
+			if p != nil {
+				direct = append(direct, map[string]interface{}{"index": it, "what": fmt.Sprintf("goroutine %d panicked: %v", ti, p)})
+			}
+		}
+		ps := make([]string, nthreads)
+		rs := make([]string, nthreads)
+		tms := make([]string, nthreads)
+		ncalls := 0
+		for ti := range progs {
+			it := make([]string, len(progs[ti]))
+			for k, q := range progs[ti] {
+				it[k] = q.sx()
+			}
+			ps[ti], rs[ti], tms[ti] = emit.L(it), emit.L(res[ti]), emit.L(times[ti])
+			ncalls += len(progs[ti])
+		}
+		ns := make([]string, len(names))
+		for i, n := range names {
+			ns[i] = emit.S(n)
+		}
+		w.Add(emit.C(4, emit.L(ns), emit.L(ps), emit.L(rs), emit.L(tms)), ncalls >= 4,
+			fmt.Sprintf("threads:%d", nthreads), fmt.Sprintf("hmode:%d", hm), fmt.Sprintf("calls:%d", ncalls))
+	}
 	if len(direct) > 0 {
 		w.Extra["direct_failures"] = direct
 	}
